@@ -1,1 +1,3 @@
 import VProps.C10
+#print axioms V.C10.stateres_column_eq_spec
+#print axioms V.C10.entrypoint_selects
